@@ -107,11 +107,6 @@ pub open spec fn adapter<B>(c: GrpcWebCall<B>, inner: B, d: Direction, e: Encodi
     c.inner == inner && c.direction == d && c.encoding == e && c.client == client && c.trailers is None && !c.inner_done
         && c.buf@ == Seq::<u8>::empty() && c.decoded@ == Seq::<u8>::empty()
 }
-impl BytesMut {
-    // A-bytes-26: BytesMut::with_capacity is empty
-    #[verifier::external_body]
-    pub fn with_capacity(n: usize) -> (r: BytesMut) ensures r@ == Seq::<u8>::empty(), r.reserve_bound@ < 0 { unimplemented!() }
-}
 '''
 
 
